@@ -1,5 +1,6 @@
 import OdakModel.Exec.Proto
 import OdakModel.Dual
+import OdakModel.Chk
 import OdakModel.Polar
 import OdakModel.Kernels
 import OdakModel.Geometry
@@ -70,8 +71,36 @@ def dualOp (a : List Int) : String :=
     let outs := f xs ps
     outF (outs.flatMap fun o => [o.v, o.d])
 
+/-! `chk <idx> <k> x_1..x_k`: the entry point run at `Chk Float`; prints, per output component, the value and 1/0 for
+    "every local derivative on the autograd graph is finite" (both branches of every `torch.where` included). -/
+abbrev CF := Chk Float
+def cv (xs : Array CF) (i : Nat) : CF := xs.getD i ⟨0.0, true⟩
+def cvec (xs : Array CF) (i : Nat) : Vec3 CF := ⟨cv xs i, cv xs (i+1), cv xs (i+2)⟩
+def cout (v : Vec3 CF) : List CF := [v.x, v.y, v.z]
+def chkFns : List (String × (Array CF → List CF)) := [
+  ("rgb2ycrcb", fun xs => cout (Gen.rgb2ycrcb (cvec xs 0))),
+  ("ycrcb2rgb", fun xs => cout (Gen.ycrcb2rgb (cvec xs 0))),
+  ("lin2xyz", fun xs => cout (Gen.linearRgbToXyz (cvec xs 0))),
+  ("xyz2lin", fun xs => cout (Gen.xyzToLinearRgb (cvec xs 0))),
+  ("srgb2lab", fun xs => cout (Gen.srgbToLab (cvec xs 0))),
+  ("lab2srgb", fun xs => cout (Gen.labToSrgb (cvec xs 0))),
+  ("srgb2lin", fun xs => [Gen.srgbToLinear (cv xs 0)]),
+  ("lin2srgb", fun xs => [Gen.linearToSrgb (cv xs 0)])
+]
+def chkOp (a : List Int) : String :=
+  let x := a.toArray
+  let idx := (x.getD 0 0).toNat
+  let k := (x.getD 1 0).toNat
+  match chkFns[idx]? with
+  | none => "bad-args"
+  | some (_, f) =>
+    let xs : Array CF := (Array.range k).map fun i => ⟨fl (x.getD (2 + i) 0), true⟩
+    outF ((f xs).flatMap fun o => [o.v, if o.ok then 1.0 else 0.0])
+
 def opsDual : List (String × Handler) := [
   ("dual", dualOp),
-  ("dual_names", fun _ => joinS (dualFns.map (·.1)))
+  ("dual_names", fun _ => joinS (dualFns.map (·.1))),
+  ("chk", chkOp),
+  ("chk_names", fun _ => joinS (chkFns.map (·.1)))
 ]
 end Odak.Exec
